@@ -8,7 +8,7 @@
    of batches -- no row beyond the position, no position without its rows. *)
 From Coq Require Import List NArith Bool.
 From Shovel Require Import Model.TaskTypes Model.TaskDb Model.Task Model.TaskNode Model.TaskSys
-  Model.TaskSpec Model.TaskWitness Proofs.TaskLegacyP Proofs.C02P Proofs.TaskLiveP Proofs.TaskPruneP.
+  Model.TaskSpec Model.TaskWitness Proofs.TaskLegacyP Proofs.C02P Proofs.TaskLiveP Proofs.TaskPruneP Proofs.C03LiveP.
 Import ListNotations.
 Open Scope N_scope.
 
@@ -76,6 +76,34 @@ Theorem retry_equiv : forall c ch,
   pv c (hstepf c ch d') = pv c (hstepf c ch d) /\ outside c (hstepf c ch d') = outside c (hstepf c ch d).
 Proof. exact retry_lemma. Qed.
 Print Assumptions retry_equiv.
+
+(* retry_equiv on REORG histories.  The node serves the final chain [ch]
+   (every answer is a block / segment of ch, or fails: [NDAr]); the recorded
+   batches are [p] (the final chain's) followed by orphaned batches [q]
+   (C03 [ghost_split] derives such a split for every state the safety theorems
+   allow).  A step under ANY fault plan that does not report success -- it may
+   have committed an unwind of some of the orphaned batches -- leaves a state
+   from which the fault-free retry ends in the same pair and the same outside
+   as the fault-free step from the original state. *)
+Theorem retry_equiv_reorg : forall c ch,
+  cfg_ok c -> wf_chain ch -> height ch < nmax -> t_deps c = [] ->
+  (forall b, In b ch -> NoDup (map fst (b_rows b))) -> t_hashes c = true ->
+  forall d p q ln x s o,
+  pv c d = render c (p ++ q) -> wf_ghost c (p ++ q) ->
+  Forall (on_chain (t_hashes c) ch) (concat p) -> Forall (orphan ch) q ->
+  (forall y, In y (concat (p ++ q)) -> b_num y < clip c (height ch - 1)) ->
+  (length q <= 1000)%nat ->
+  blk_at ch ln = Some x -> at_pos c p ln -> ln < clip c (height ch - 1) ->
+  trace_sat (NDAr ch) (step c s d) -> r_out (step c s d) = Fin o -> o <> OConverged ->
+  let F := (6 * length q + 12)%nat in
+  let d' := r_db (step c s d) in
+  r_out (exec_honest F (t_uniq c) (t_hashes c) ch (converge c) d' None) = Fin OConverged
+  /\ pv c (r_db (exec_honest F (t_uniq c) (t_hashes c) ch (converge c) d' None))
+     = pv c (r_db (exec_honest F (t_uniq c) (t_hashes c) ch (converge c) d None))
+  /\ outside c (r_db (exec_honest F (t_uniq c) (t_hashes c) ch (converge c) d' None))
+     = outside c (r_db (exec_honest F (t_uniq c) (t_hashes c) ch (converge c) d None)).
+Proof. exact retry_reorg_lemma. Qed.
+Print Assumptions retry_equiv_reorg.
 
 (* PruneTask (cmd/shovel runs it with n = 200): [prune n] keeps, per pair, the
    n newest cursor rows (Model/TaskDb.v).  It touches no table row, keeps the
